@@ -11,7 +11,7 @@ ANCHORS = ["XMLFileWriter.write_to_file", "float_to_str", "RectangleXMLNode.crea
            "LaneletXMLNode.create_node", "TrafficLightXMLNode.create_node", "IntersectionXMLNode.create_node"]
 REQUIRED = ["contract.xsd", "contract.xml.write_to_file", "role.static", "role.dynamic", "role.phantom",
             "role.environment", "shape.rectangle", "shape.circle", "shape.group", "intersection", "stopline.refs",
-            "goal.position.group", "goal.position.lanelets", "light.offset.positive"] + \
+            "goal.position.group", "goal.position.lanelets", "light.offset.positive", "lanelet.3d.zero-height-vertex"] + \
            ["precision.%d" % d for d in range(1, 13)]
 ASSUMPTIONS = ["generated scenarios are schema-expressible by construction; on the unchanged tree every distinct XSD "
                "error class was inspected and either attributed to the library or removed from the generator"]
